@@ -1,5 +1,5 @@
 """property -> rules"""
-from . import rules_dd, rules_bounds, rules_limits, rules_tools
+from . import rules_dd, rules_bounds, rules_limits, rules_tools, rules_conv
 
 CLANG = "clang 14 parser, constant evaluator and CFG builder (via tools/h4x.cc)"
 CDB = "compile flags taken from ninja -t compdb of /repo/_build (or a throw-away cmake configure)"
@@ -47,31 +47,41 @@ PROPS["C17"] = {
 PROPS["C02"] = {
     "rules": [rules_bounds.rule_F2_arrays, rules_dd.rule_F3, rules_dd.rule_F3b, rules_dd.rule_F11b, rules_dd.rule_F11c],
     "level": "other",
-    "explanation": "TODO",
-    "rule_text": "TODO",
+    "explanation": "Decides structural necessary conditions of 'every written file is well-formed and the reported raw locations never exceed the caller's arrays': (F2) every store into a caller-supplied offset/length/palette-info array is dominated by `index < capacity` (or a clamp) on every path, and arrays are forwarded only together with the unchanged capacity; (F3/F3b) on-disk descriptors and DD-block links equal the in-memory ones after every non-failing mutator; (F11b) file space has a single source (no computed offsets, designated writers of f_end_off); (F11c) every new DD block is completely written before it is linked. Not decided: acyclicity/in-bounds of actual chains for a given history, consistency of the values inside special-element headers.",
+    "rule_text": 'instances = store/forward sites into caller arrays in the *getdatainfo/GRgetpalinfo family, DD mutator functions, HTPupdate call sites, f_end_off stores, DD-block creators; non-trivial = needed path-sensitive facts',
     "trusted": [CLANG, CDB],
     "assumptions": [],
-    "level_text": "TODO", "level_note": "TODO", "technique": "TODO",
+    "level_text": 'All-paths structural checks (bounded output writes, persist-after-mutate, allocation provenance, new-block completeness): necessary conditions of well-formedness that hold for every input and call order, which no finite test script can cover.', "level_note": 'Trusted: clang front end/CFG, build flags. Decides the structural clauses named in the explanation; an independent-reader comparison of actual bytes is out of static reach.', "technique": 'path-sensitive bounds/typestate dataflow over clang CFGs',
 }
 
 PROPS["C20"] = {
     "rules": [rules_limits.rule_F9a, rules_limits.rule_F9b, rules_limits.rule_F9c],
     "level": "other",
-    "explanation": "TODO",
-    "rule_text": "TODO",
+    "explanation": "Decides the structural part of 'format limits are enforced, nothing wraps': (F9a) every addition that forms a 32-bit file offset/length stored into filerec_t.f_end_off or passed to HTPupdate is dominated by an `x > INT32_MAX - y` style guard on the same operands; (F9b) every increment of a <=16-bit record field is dominated by a comparison with its limit; (F9c) every value encoded into a 16-bit field of the Vgroup/Vdata records (vpackvg/vpackvs), and every narrowing store into those fields elsewhere, is bounded: narrow type, dominating comparison with a constant, strlen of a fixed array, narrow-returning callee, or a listed API guard whose presence is re-verified. Not decided: 'library remains usable afterwards', limits on dimension/open-file counts (value checks in SDcreate/NC_open are not yet instances).",
+    "rule_text": 'instances = accumulator additions, summed HTPupdate arguments, increments of narrow record fields, ENCODE expansions in vpackvg/vpackvs, narrowing stores into persisted 16-bit fields (all re-discovered per run); non-trivial = verdict needed a path fact or a width inference through definitions',
     "trusted": [CLANG, CDB],
     "assumptions": [],
-    "level_text": "TODO", "level_note": "TODO", "technique": "TODO",
+    "level_text": "All-paths guard-dominance checks on the arithmetic that produces persisted offsets, counters and lengths; a necessary condition of 'no wrap-around', decided for all operand values rather than the few sizes a test can afford to create.", "level_note": 'Trusted: clang front end/CFG/constant evaluator, build flags, the list of persisted narrow fields is derived from the encoders themselves.', "technique": 'guard-dominance dataflow + integer-width inference over clang CFGs/ASTs',
 }
 
 PROPS["C19"] = {
     "rules": [rules_tools.rule_nt_switches, rules_tools.rule_truncating_difference, rules_tools.rule_count_propagation],
     "level": "other",
-    "explanation": "TODO",
-    "rule_text": "TODO",
+    "explanation": "Decides structural necessary conditions of 'hdiff exits 0 exactly when contents are equal' and 'hdp prints what the API returns': (F7e) every number-type switch in the hdiff/hdp comparison and dump kernels has an arm for all ten base types and is applied to a value with the little-endian/native flavour bits masked off, or else reaches a failing default; (F9d) in hdiff's kernels |a-b| of integer elements is evaluated and kept in a type wider than the elements; (COUNT) every difference count returned inside hdiff reaches the caller's return value on every non-error path (no dropped or overwritten counts) and main's exit status is computed from it. Not decided: printed digits, object matching, hdfimport numerics.",
+    "rule_text": 'instances = number-type switches in mfhdf/hdiff and mfhdf/hdp (classified kernel / print-only), integer element differences in hdiff, hdiff functions consuming difference counts; non-trivial = needed AST table comparison or path-sensitive count flow',
     "trusted": [CLANG, CDB],
     "assumptions": [],
-    "level_text": "TODO", "level_note": "TODO", "technique": "TODO",
+    "level_text": "Exhaustiveness, width and result-propagation checks over the tools' own call chain; they decide for every number type and every path what the shipped comparisons only sample.", "level_note": 'Trusted: clang front end/CFG, build flags; the classification table of number-type switches (an unclassified switch makes the check exit 2).', "technique": 'switch-table exhaustiveness + width inference + result-propagation typestate over clang ASTs/CFGs',
+}
+
+PROPS["C06"] = {
+    "rules": [rules_conv.rule_tables, rules_conv.rule_kernels],
+    "level": "proof",
+    "explanation": "Discharges a finite obligation set that *is* the claim for the conversion layer: (F7d) for each of the 10 supported base types x {standard, little-endian, native}: DFKNTsize gives the format's size, DFKsetNT has an arm selecting in = out = DFK{s|n}b<size>b with swap <=> file byte order != host byte order (host configuration in the quick tier, both H4_WORDS_BIGENDIAN settings in the thorough tier), no arm falls through, no undefined code is accepted, and DFKconvert routes READ->in, else->out with source, dest, count and strides unchanged; (F8) each of the 7 kernels is, on each of its contiguous/strided x in-place/out-of-place paths, a data-oblivious byte move: only byte copies touch data, every destination byte is written exactly once from the reversed (sb) or same (nb) source index, the in-place variant reads all source bytes before writing, the pointer advance is the element size or the matching stride parameter, memcpy lengths are num_elm*size, and the contiguous path is taken only when both strides are 0 (or the element size for copy kernels). A byte reversal is an involution, so in(out(x)) = x for all bit patterns, counts and strides. Not decided: that callers pass the number type the data was stored with (e.g. hdf_read_ndgs keeping the flavour of dimension scales).",
+    "rule_text": "obligations = table rows x configurations + kernel paths; anything outside the accepted statement grammar is 'unrecognised' (exit 2), never assumed correct",
+    "trusted": [CLANG, CDB],
+    "assumptions": [],
+    "level_text": 'Exhaustive discharge of the finite table and kernel-path obligations; because the kernels are data-oblivious the result holds for every bit pattern, count and stride at once (a test would need 2^64 values per type).', "level_note": "Trusted: clang front end and constant evaluator, the format's element sizes (SPEC_SIZE), host endianness taken from the build's H4_WORDS_BIGENDIAN.", "technique": 'table obligations + symbolic byte-cell interpreter over clang ASTs',
 }
 
 NOT_APPLICABLE = {
